@@ -83,6 +83,17 @@ func judgeWideCase(w *core.W, c *wideCase, parser *route.Parser) {
 			return
 		}
 		leaves[i] = leaf
+		if i == c.N/2 {
+			// requests are served while the application is still being assembled: whatever the tree derives from
+			// what it holds at that moment must not outlive the next registration
+			for j := 0; j <= i; j += 97 {
+				_, path, _ := c.routeAndPath(j)
+				if lf, _, ok, _ := safeMatch(t, path, nil); !ok || lf != leaves[j] {
+					w.Violate("wide-not-found", c, fmt.Sprintf("half-way: route %d is registered, its own instance %q is not dispatched to it", j, path))
+					return
+				}
+			}
+		}
 	}
 	w.CountN("wide-routes-registered", c.N)
 	if msg := treeInvariants(t); msg != "" {
